@@ -13,6 +13,9 @@ import (
 // scalarCheck evaluates e with the engine (Evaluate) and with the reference and compares exactly.
 // It returns the reference value (nil when skipped).
 func (c *Case) scalarCheck(e xref.Expr, ctx *xdoc.Node, kindOnAbort string) (interface{}, bool) {
+	if c.expensive(e, ctx.Doc) {
+		return nil, true
+	}
 	want, oof := xref.SafeEval(e, xref.NewCtx(ctx))
 	if oof != "" {
 		c.Skip("out-of-fragment: " + oof)
